@@ -625,6 +625,55 @@ theorem C16_errors (inputs outputs : List Signal) (tests : List TestDesc) :
         | err e => exact absurd hr (makeAll_no_err _ _ e)
         | panic m => simp [hr] at h
 
+/-- **Exactly when a description is refused for a missing signal** (with fix F22): some test has, in its header, a name
+that is not the `_out` side of an input (`classifyNames … .2`), that the test does not declare itself, and that is no pin.
+In particular a column for a virtual signal the test declares never makes the document unloadable. -/
+theorem C16_missing_iff (inputs outputs : List Signal) (tests : List TestDesc) (hdrs : List (List String))
+    (hm : tests.mapM (fun t => headerNames t.source) = some hdrs) :
+    (∃ ms, digAssemble inputs outputs tests = .err (.missingSignals ms)) ↔
+    ∃ p ∈ tests.zip hdrs, ∃ n ∈ (classifyNames (inputs ++ outputs) p.2).2,
+      (declaredNames p.1.source).contains n = false ∧ (inputs ++ outputs).any (fun s => s.name == n) = false := by
+  unfold digAssemble
+  simp only [hm]
+  constructor
+  · rintro ⟨ms, h⟩
+    split at h
+    · next hne =>
+      cases h
+      -- the list of missing names is not empty: take its head
+      cases hl : ((((tests.zip hdrs).map (fun p => pinNamesOf (inputs ++ outputs) p.1 p.2)).flatten).filter
+          (fun n => !((inputs ++ outputs).any (fun s => s.name == n)))) with
+      | nil => rw [hl] at hne; simp at hne
+      | cons n rest =>
+        have hn : n ∈ ((((tests.zip hdrs).map (fun p => pinNamesOf (inputs ++ outputs) p.1 p.2)).flatten).filter
+            (fun n => !((inputs ++ outputs).any (fun s => s.name == n)))) := by rw [hl]; simp
+        simp only [List.mem_filter, Bool.not_eq_true'] at hn
+        obtain ⟨hmem, hnot⟩ := hn
+        simp only [List.mem_flatten, List.mem_map] at hmem
+        obtain ⟨l, ⟨p, hp, rfl⟩, hnl⟩ := hmem
+        simp only [pinNamesOf, List.mem_filter, Bool.not_eq_true'] at hnl
+        exact ⟨p, hp, n, hnl.1, hnl.2, hnot⟩
+    · cases hr : makeAllBidirectional (dedupNames (classifyNames (inputs ++ outputs) hdrs.flatten).1) (inputs ++ outputs) with
+      | ok r => simp [hr] at h
+      | err e => exact absurd hr (makeAll_no_err _ _ e)
+      | panic m => simp [hr] at h
+  · rintro ⟨p, hp, n, hn, hd, hs⟩
+    have hmem : n ∈ ((((tests.zip hdrs).map (fun p => pinNamesOf (inputs ++ outputs) p.1 p.2)).flatten).filter
+        (fun n => !((inputs ++ outputs).any (fun s => s.name == n)))) := by
+      simp only [List.mem_filter, Bool.not_eq_true', List.mem_flatten, List.mem_map]
+      refine ⟨⟨pinNamesOf (inputs ++ outputs) p.1 p.2, ⟨p, hp, rfl⟩, ?_⟩, hs⟩
+      simp only [pinNamesOf, List.mem_filter, Bool.not_eq_true']
+      exact ⟨hn, hd⟩
+    split
+    · exact ⟨_, rfl⟩
+    · next hne =>
+      exfalso
+      apply hne
+      cases hl : ((((tests.zip hdrs).map (fun p => pinNamesOf (inputs ++ outputs) p.1 p.2)).flatten).filter
+          (fun n => !((inputs ++ outputs).any (fun s => s.name == n)))) with
+      | nil => rw [hl] at hmem; simp at hmem
+      | cons a rest => simp
+
 /-- **An attribute is looked up among the element's own entries** (fix F19): the value `attrib` returns is a child of an
 `entry` child of an `elementAttributes` child of the element, and that entry carries the key as the character data of a
 `string` child — entries nested deeper, inside some value, are never used; and the entry has at least two elements: a key
